@@ -5,6 +5,46 @@ _COMMON_NOTE = ('Trusted: Coq 8.16.1 kernel (vm_compute for finite sweeps, no na
                 'All python code is modelled, not verified: the hand model is tied to /repo by the correspondence run. ')
 
 CHECKS = {
+    'C01': {
+        'text': 'Theorems in coq/props/C01.v: canonicity of the normal form on the listener/export model - for ALL lists of '
+                'signifier characters, two layouts with the same SET of signifiers give the same sorted signifier list and the '
+                'same exported note under every category filter (sorted duplicate-free lists over a total antisymmetric order '
+                'are unique; the stable sort is a permutation). The fixed-point clauses (default export and extended round trip '
+                're-import without errors and re-export identically) are decided at document level by the correspondence of the '
+                'importer/exporter/scanner model with kernpy and by running the property on kernpy; no scan-of-print theorem is '
+                'claimed yet.',
+        'note': _COMMON_NOTE + 'The ANTLR grammar is modelled only on the CKL sub-language (DESIGN.md section 3); its signifier tables are validated by an exhaustive character / pair sweep on every run.',
+        'technique': 'Coq proof of canonicity (sorted-NoDup uniqueness, sort permutation) + model/impl correspondence of scanner, importer and exporter + property monitors',
+    },
+    'C02': {
+        'text': 'Theorems in coq/props/C02.v, by induction over the rows of the importer model with an invariant on the '
+                'stage table: for EVERY text that imports, the tree has one stage per non-empty line and one node per '
+                'tab-separated cell (one node for a global-comment line); a cell beyond the live spine paths makes the step '
+                'raise. Parent / header / spine-id / literal-text clauses are decided by comparing the whole tree of kernpy with '
+                'the model and with an independent reference spine-path model on every spine-operator layout up to depth 3 '
+                '(exhaustive), literal cells and surplus rows.',
+        'note': _COMMON_NOTE + 'csv.reader / str.splitlines are modelled from their documented behaviour (QUOTE_NONE, tab delimiter).',
+        'technique': 'Coq proof by induction over rows (stage-table invariant) + exhaustive-layout model/impl correspondence of the whole tree + reference spine-path monitor',
+    },
+    'C03': {
+        'text': 'Theorems in coq/props/C03.v (token level, all tokens / filters / encodings): non-note tokens are exported as '
+                'their text, the default category set deletes no sub-part, exported sub-parts are a permutation of the note\'s '
+                'sub-parts, separator-free text is identical in all encodings. The grid clauses (same lines minus global '
+                'comments and null lines, every cell against the generator\'s own description) are decided by correspondence of '
+                'the importer/exporter model and by the oracle monitor on kernpy. Known findings K2 (hidden barlines) and K3 '
+                '(separator characters inside non-note cells).',
+        'note': _COMMON_NOTE,
+        'technique': 'Coq proof (token-level conservation lemmas) + model/impl correspondence + oracle monitor from the generator AST',
+    },
+    'C17': {
+        'text': 'Theorems in coq/props/C17.v for EVERY document of the model: a category-filtered listing is exactly the filter '
+                'of the full listing by the closure of the filter; the unique listing has no repeated encoding and the same '
+                'encodings (first occurrences); frequency counts sum to the listing and have its keys; the keyed comment query '
+                'returns only lines with that prefix. Traversal order (pre-header comments, spines depth-first, later comments) '
+                'and is_monophonic are decided by correspondence and by an independent reading of the source text.',
+        'note': _COMMON_NOTE,
+        'technique': 'Coq proof (list lemmas over the query model) + model/impl correspondence + reference-order monitor',
+    },
     'C09': {
         'text': 'Theorems in coq/props/C09.v hold for every octave in Z (finite residue sweep by vm_compute lifted with '
                 'Z.div/mod lemmas; inverse, unison, octave, P4+P5 and failure-only-on-residue-22 proved algebraically for '
